@@ -4,6 +4,7 @@ import (
 	"crypto/sha256"
 	"encoding/hex"
 	"fmt"
+	"os"
 	"sort"
 )
 
@@ -144,7 +145,18 @@ func (r *Run) Fail(prop, key, format string, a ...interface{}) {
 	msg := fmt.Sprintf(format, a...)
 	r.Logf("VIOLATION %s %s: %s", prop, key, msg)
 	r.Violations = append(r.Violations, Violation{Property: prop, Key: key, Msg: msg, Step: r.StepNo})
+	if ReplayTarget != nil && ReplayTarget.Property == prop && ReplayTarget.Key == key {
+		// replay mode: the recorded violation shows again. Report at once: what the damaged code
+		// does afterwards (a later fatal error, a hang) must not hide it.
+		fmt.Printf("REPLAY reproduced property=%s key=%s step=%d (reported at the moment of the violation)\n  %s\n", prop, key, r.StepNo, msg)
+		os.Stdout.Sync()
+		os.Exit(1)
+	}
 }
+
+// ReplayTarget is set by RunReplay for checks whose replays are reported at the moment the
+// recorded violation shows again.
+var ReplayTarget *Violation
 
 func (r *Run) Failed() bool { return len(r.Violations) > 0 }
 
